@@ -1084,10 +1084,6 @@ func runGatewayCase(c *rig.Ctx, pool *gwPool, cs GCase) gwVerdict {
 			if !o.NotProxied || o.NUp != 0 {
 				return fail("diff", "compose.diff.not-proxied", "an IP-literal Host was not handed to the control-plane handler", i)
 			}
-		case "plain":
-			if o.Status != out.Code || o.NUp != 0 {
-				return fail("diff", "compose.diff.answer", fmt.Sprintf("model plain %d, code %d", out.Code, o.Status), i)
-			}
 		case "badRequest":
 			if o.Status != 400 || o.NUp != 0 {
 				return fail("diff", "compose.diff.answer", fmt.Sprintf("model: net/http refuses the request, code %d", o.Status), i)
@@ -1385,6 +1381,7 @@ var gwTargets = []string{
 	"/apis/a/v1/namespaces/n/deployments/ab/status", "/apis/ab/v1/pods/b", "/apis/b/v1/namespaces/n/a/a/s", "/apis/a/v1/namespaces/n/a/b/t",
 	"/apis/a/v1/namespaces/n/pods/ab/status", "/api/v1/namespaces/x/events", "/apis/b/v1/deployments?limit=1&limit=2",
 	"/x", "/x/y", "/xy", "/healthz", "/", "/x?a=1&a=0&b=%2F", "/api/v1/namespaces/n/pods/a%2Fb", "/api/v1/proxy",
+	"/api/v1/namespaces/n/pods/a%2Fb|\"c\"", // a byte no URL may carry raw: escaped by the gateway, %2F kept (fix 85b204e)
 }
 
 func genGReq(r *rand.Rand, cs *GCase, hot int) ReqSpec {
@@ -1531,7 +1528,7 @@ func gwStillFails(c *rig.Ctx, pool *gwPool, cs GCase, class string) bool {
 
 func runGatewayStream(c *rig.Ctx, pool *gwPool) {
 	r := c.Rng
-	c.SetExtra("gateway_stream_rule", "gateway: one whole configuration (2-3 UpstreamCluster objects with overlapping names/aliases incl. conflicts, case variants, dead aliases with a port; 1-3 dispatch policies with 1-3 rules from harness/matchgen — inverted lists included —, a flow-control schema name (present, empty, unknown), an upstream subset (explicit, with a stale or repeated name, or none); schemas max-in-flight 0-3 / token bucket qps 1,2,4 burst 1-3 / exempt; 1-3 endpoints, disabled flags, duplicate entries, first health reports; feature gates DenyAllRequests, CloseConnectionWhenIdle; per-cluster token and impersonation oracles in which the same token may be another user) and a sequence of 8-24 operations (requests in every host spelling incl. unknown, refused and IP-literal hosts, 19 targets, 7 methods, impersonation headers in three casings, stray family members, requests HELD inside their upstream, completions, health reports, a scripted clock advancing in quarter seconds). distinct = distinct canonical case; non-trivial = the sequence shows at least two different rows of the decision table")
+	c.SetExtra("gateway_stream_rule", "gateway: one whole configuration (2-3 UpstreamCluster objects with overlapping names/aliases incl. conflicts, case variants, dead aliases with a port; 1-3 dispatch policies with 1-3 rules from harness/matchgen — inverted lists included —, a flow-control schema name (present, empty, unknown), an upstream subset (explicit, with a stale or repeated name, or none); schemas max-in-flight 0-3 / token bucket qps 1,2,4 burst 1-3 / exempt; 1-3 endpoints, disabled flags, duplicate entries, first health reports; feature gates DenyAllRequests, CloseConnectionWhenIdle; per-cluster token and impersonation oracles in which the same token may be another user) and a sequence of 8-24 operations (requests in every host spelling incl. unknown, refused and IP-literal hosts, 20 targets (one unresolvable by the RequestInfo resolver, one with bytes no URL may carry raw), 7 methods, impersonation headers in three casings, stray family members, requests HELD inside their upstream, completions, health reports, a scripted clock advancing in quarter seconds). distinct = distinct canonical case; non-trivial = the sequence shows at least two different rows of the decision table")
 	n := c.Budget(1200, 30000)
 	if c.Search && !c.Thorough() && n > 3600 {
 		n = 3600 // a broken obligation multiplies the quick budget by 10: three times is plenty for this stream
